@@ -9,12 +9,15 @@ import sys
 import time
 
 V = "/verif"
-REPO = "/repo"
-BUILD = V + "/build"
+# Registered commands always use /repo and /verif/build.  For experiments (seeded mutants in a scratch copy of the
+# sources) VERIF_REPO / VERIF_BUILD redirect the build; evidence then goes under the scratch build directory.
+REPO = os.environ.get("VERIF_REPO", "/repo")
+BUILD = os.environ.get("VERIF_BUILD", V + "/build")
+SCRATCH = REPO != "/repo" or BUILD != V + "/build"
 SPEC = V + "/spec"
 RUN = BUILD + "/run"
 TLCDIR = BUILD + "/tlc"
-EVID = V + "/evidence"
+EVID = (BUILD + "/evidence") if SCRATCH else (V + "/evidence")
 REPLAYS = EVID + "/replays"
 
 NCPU = min(16, os.cpu_count() or 4)
@@ -38,7 +41,7 @@ def sh(cmd, timeout=None, env=None, cwd=None, check=False):
 def build(targets, variant="asan"):
     """(Re)build harness binaries from /repo's current working tree."""
     t = " ".join("%s/%s/bin/%s" % (BUILD, variant, x) for x in targets)
-    rc, out = sh("make -C %s -j%d VARIANT=%s %s" % (V, NCPU, variant, t), timeout=900)
+    rc, out = sh("make -C %s -j%d VARIANT=%s REPO=%s BROOT=%s %s" % (V, NCPU, variant, REPO, BUILD, t), timeout=900)
     if rc != 0:
         raise InternalError("build failed:\n" + out[-6000:])
     return ["%s/%s/bin/%s" % (BUILD, variant, x) for x in targets]
